@@ -38,13 +38,18 @@ def view_hook(builder, fr, out, node, stmt, sites):
                 off, n, what = a0["r"], node["a"][1], "sub-view"
     elif node.get("k") == "call":
         nm, q, recv, kind = astx.callee(node)
-        if nm in ("copy", "compare", "move") and len(node["a"]) == 3:
-            for src in (node["a"][0], node["a"][1]):
+        # (pointer arguments, count argument) of the char_traits primitives that walk a counted range
+        shape = {"copy": ((0, 1), 2), "compare": ((0, 1), 2), "move": ((0, 1), 2), "find": ((0,), 1), "assign": ((0,), 1)}.get(nm)
+        if shape is not None and len(node["a"]) == 3 and (q is None or "traits" in (q or "") or "Traits" in astx.show(node["f"], 60)
+                                                          or nm in ("copy", "compare", "move")):
+            for src in [node["a"][i] for i in shape[0]]:
                 s0 = astx.strip_casts(src)
                 if s0.get("k") == "bin" and s0["op"] == "+":
                     b0 = astx.strip_casts(s0["l"])
                     if b0.get("k") == "call" and astx.callee(b0)[0] == "data" and astx.is_this(astx.callee(b0)[2]):
-                        off, n, what = s0["r"], node["a"][2], "range read by traits::" + nm
+                        off, n, what = s0["r"], node["a"][shape[1]], "range read by traits::" + nm
+                elif s0.get("k") == "call" and astx.callee(s0)[0] == "data" and astx.is_this(astx.callee(s0)[2]) and nm in ("find", "assign"):
+                    off, n, what = {"k": "int", "v": "0", "ty": "int"}, node["a"][shape[1]], "range read by traits::" + nm
     if node.get("k") == "bin" and node["op"] == "+":
         # pointer formation: data() + e / _begin + e / begin() + e must not go beyond one past the last character
         b0 = astx.strip_casts(node["l"])
@@ -105,7 +110,11 @@ def compare3(chk, db):
     if not fs:
         chk.analysis_broken("CMP3: basic_string_view::compare(basic_string_view) no longer exists")
         return
-    f = fs[0]
+    compare3_of(chk, fs[0])
+
+
+def compare3_of(chk, f):
+    """evaluate one whole-string compare member over the nine (prefix order, size order) worlds"""
     other = f["params"][0]["n"]
     res_vars = set()
 
@@ -118,6 +127,15 @@ def compare3(chk, db):
             return -ev(e["e"], w)
         if k == "ref" and e["n"] in res_vars:
             return w["prefix"]
+        if k == "call" and astx.callee(e)[0] == "compare" and len(e["a"]) == 3:
+            return w["prefix"]      # traits compare over the common prefix (its length is BOUND's business)
+        if k == "cond":
+            return ev(e["t"], w) if ev(e["c"], w) else ev(e["f"], w)
+        if k == "bin" and e["op"] in ("&&", "||"):
+            a = ev(e["l"], w)
+            return (a and ev(e["r"], w)) if e["op"] == "&&" else (a or ev(e["r"], w))
+        if k == "un" and e["op"] == "!":
+            return not ev(e["e"], w)
         if k == "bin" and e["op"] in ("<", ">", "==", "!=", "<=", ">="):
             def side(x):
                 x = astx.strip_casts(x)
@@ -310,6 +328,8 @@ META = (META[0] + ' SIB; IT4i; RESUME (pattern searches, including etl::search /
 META = (META[0] + " RWINDOW (rfind's prologue evaluated over (pos, n, size) models: the prefix handed to the backward scan); PTRCOUNT over char_traits.", META[1])
 META = (META[0] + ' IDXLOOP; FWINDOW (forward pointer scans end at data() + size()).', META[1])
 
+META = (META[0] + ' FIRSTREAD (every search that scans by itself is executed over (size, pos, needle length) models up to its first read of the view: position min(pos, size-1) for the backward searches, pos for the forward ones); BOUND covers traits find / assign ranges; WRAP (a position argument is bounded before anything is added to it).', META[1])
+
 
 def run(chk, tier):
     db = D.load("checks")
@@ -322,6 +342,9 @@ def run(chk, tier):
     _ITX.counted_buffer_area(chk, db, ['_string/char_traits'], floor=3)      # PTRCOUNT: (pointer, count) buffers are indexed below count
     from ..rules import exits as _EX
     _EX.check_fwindow(chk, db)      # FWINDOW: forward pointer scans end at data() + size()
+    _EX.pos_wrap_area(chk, db, ['_string_view/'])      # WRAP: position arguments are bounded before anything is added to them
+    if _EX.check_first_read(chk, db) < 4:      # FIRSTREAD: the first character a positional search looks at
+        chk.analysis_broken("FIRSTREAD: fewer than 4 searches that scan by themselves (floor 4)")
     if _EX.check_rwindow(chk, db) < 1:      # both rfind members became pure delegations: nothing to judge here
         chk.unknown_instance('RWINDOW', 'etl::basic_string_view::rfind', 'no rfind member with a prologue of its own')
     from ..rules import sibs as _SB
